@@ -167,8 +167,10 @@ closeLoop:
 
 func (s *atpServerSession) runATPReadLoop() {
 	// The message is generic, so we must find the type and decode the full message next.
-	var runtimeMessage DecodedRuntimeMessage
 	for {
+		// A fresh value for every frame: decoding a frame that lacks a field (for example an empty map) would
+		// otherwise leave the previous frame's value in it, and the previous message would be handled again.
+		var runtimeMessage DecodedRuntimeMessage
 		// First, decode the message
 		// Note: This blocks. To abort early, close stdin.
 		if err := s.cborStdin.Decode(&runtimeMessage); err != nil {
